@@ -65,6 +65,15 @@ pub struct Gen<T> { pub a: T, #[debug(skip)] pub b: i32, #[debug("{c:#x}")] pub 
 #[derive(derive_more::Debug, derive_more::Display)]
 pub enum FmtEn<T> { #[display("a{_0}")] A(T), #[debug("B:{x}")] #[display("b{x:03}")] B { x: i32 }, C }
 
+/// an enum-level format wrapping what each variant prints by itself (`_variant`): own format, single field without one,
+/// unit variants with and without one
+#[derive(derive_more::Display)]
+#[display("<{_variant}>")]
+pub enum Wrapped<T> { #[display("a{_0}")] A(T), B(i32), #[display("c{x}")] C { x: u8 }, #[display("u")] U, Plain }
+#[derive(derive_more::LowerHex)]
+#[lower_hex("[{_variant}|{}]", 1 + 1)]
+pub enum WrappedHex { A(u8), #[lower_hex("{_0:x}{_1:x}")] B(u8, u16) }
+
 #[derive(derive_more::Debug)]
 pub struct DbgTuple(pub i32, #[debug(skip)] pub u8, pub i64);
 #[derive(derive_more::Debug)]
